@@ -8,6 +8,7 @@ package main
 import (
 	"bytes"
 	"context"
+	"encoding/json"
 	"flag"
 	"fmt"
 	"os"
@@ -138,6 +139,14 @@ func runCheck(id string, chk check, tier string, workers int) int {
 	wg.Wait()
 	for w := 0; w < workers; w++ {
 		if errs[w] != nil {
+			if class := fatalInSUT(stderrs[w].String()); class != "" {
+				// the code under test brought the worker process down (the Go runtime cannot
+				// recover a stack overflow or a deadlock): the seed and the batch list reproduce it
+				doc := &crashReplay{Property: id, Layer: "crash", Seed: seed(), Tier: tier, Batches: lists[w], Total: nb, Class: class, Stderr: firstLines(stderrs[w].String(), 60)}
+				path := ev.WriteReplay(id, int64(seed()), 990000+w, doc)
+				rep.Violations = append(rep.Violations, ev.Violation{Prop: id, Class: class, Replay: path})
+				continue
+			}
 			os.Stderr.Write(stderrs[w].Bytes())
 			ev.Infra("worker %d of %s failed: %v", w, id, errs[w])
 		}
@@ -207,4 +216,70 @@ func ensureEnv(env []string) {
 	if err := syscall.Exec(exe, os.Args, os.Environ()); err != nil {
 		ev.Infra("re-exec: %v", err)
 	}
+}
+
+// crashReplay records a worker process that the code under test brought down.
+type crashReplay struct {
+	Property string
+	Layer    string
+	Seed     uint64
+	Tier     string
+	Batches  []string
+	Total    int
+	Class    string
+	Stderr   string
+}
+
+// fatalInSUT classifies a worker's stderr: a fatal runtime error with a frame of the
+// repository's runtime on the crashing goroutine is the repository's doing.
+func fatalInSUT(stderr string) string {
+	for _, fatal := range []string{"fatal error: stack overflow", "fatal error: all goroutines are asleep - deadlock!"} {
+		i := strings.Index(stderr, fatal)
+		if i < 0 {
+			continue
+		}
+		head := stderr[i:]
+		if len(head) > 6000 {
+			head = head[:6000]
+		}
+		if strings.Contains(head, "/seq/seq.go:") || strings.Contains(head, "/seq/iter.go:") || strings.Contains(head, "go-co/seq.") {
+			return "the runtime under test crashed the process: " + strings.TrimPrefix(fatal, "fatal error: ")
+		}
+	}
+	return ""
+}
+
+func firstLines(s string, n int) string {
+	l := strings.Split(s, "\n")
+	if len(l) > n {
+		l = l[:n]
+	}
+	return strings.Join(l, "\n")
+}
+
+// replayCrash re-runs the worker that crashed and expects the same fatal error.
+func replayCrash(id, path string) int {
+	data, err := os.ReadFile(path)
+	if err != nil {
+		ev.Infra("%v", err)
+	}
+	var doc crashReplay
+	if err := json.Unmarshal(data, &doc); err != nil {
+		ev.Infra("%v", err)
+	}
+	cmd := exec.Command(os.Args[0], "worker", id, "--tier", doc.Tier, "--batches", strings.Join(doc.Batches, ","), "--total", strconv.Itoa(doc.Total))
+	cmd.Env = append(os.Environ(), "VERIF_SEED="+strconv.FormatUint(doc.Seed, 10))
+	var stderr bytes.Buffer
+	cmd.Stderr = &stderr
+	_, err = cmd.Output()
+	if err == nil {
+		fmt.Printf("REPLAY-PASSED property=%s (the worker no longer crashes)\n", id)
+		return 0
+	}
+	if class := fatalInSUT(stderr.String()); class == doc.Class {
+		fmt.Printf("VIOLATION property=%s replay=%s\n  class: %s\n", id, path, class)
+		return 1
+	}
+	fmt.Printf("REPLAY-DIVERGED property=%s: the worker fails differently now\n", id)
+	return 2
 }
